@@ -379,4 +379,13 @@ example :
           == [(0, 7, [65, 67, 71, 84, 45, 45, 45]), (0, 7, [45, 45, 45, 45, 45, 71, 71])]
      | _ => false) = true := by decide
 
+/-- the hypothesis `RowsCapWF` of the theorems about multis holds of every multi the harness
+    (and any caller of `linear.NewSeq/NewQSeq` + `multi.NewMulti`) builds: each row owns a new
+    backing array, with its capacity inside it -/
+theorem initial_multi_wellformed (cx : Ctx) (strand : Int) (rows : List SeqSpec) :
+    match (initWorld cx "multi" strand rows).objs with
+    | [.multi m] => RowsCapWF (initWorld cx "multi" strand rows).cells m.rows
+    | _ => False :=
+  newLins_rowsCapWF cx Heap.empty rows
+
 end Biogo.Properties.C07
